@@ -518,10 +518,20 @@ def r6_identity_stable_until_published(repo=None):
     return r
 
 
+def r7_failed_create_not_published(repo=None, rid="C02.R7"):
+    """The publish step decides between rename and remove from has_failure alone and finds the file by the remembered name,
+    which already names the new tmp file when its exclusive create fails (e.g. a stale tmp file of a killed run is in the
+    way): unless that branch sets has_failure, closing the writer renames a file this session neither created nor closed."""
+    from . import c10
+    return c10.r2_sticky_failure(repo, rid=rid, detected=[("digital_rf_create_hdf5_file", "H5Fcreate")],
+                                 title="a tmp file whose exclusive create failed is never published (failure flag set on that branch)")
+
+
 def rules(repo=None):
     return [lambda: r1_tmp_provenance(repo), lambda: r2_publish_after_close(repo),
             lambda: r3_no_writer_of_final(repo), lambda: r4_staged_creation(repo),
-            lambda: r5_readers_ignore_tmp(repo), lambda: r6_identity_stable_until_published(repo)]
+            lambda: r5_readers_ignore_tmp(repo), lambda: r6_identity_stable_until_published(repo),
+            lambda: r7_failed_create_not_published(repo)]
 
 
 EXPLANATION = (
@@ -530,7 +540,7 @@ EXPLANATION = (
     "each publish call (ZERO on every path, each zeroing preceded by its close). R3: complete table of FS "
     "primitives in the C library and h5py.File modes in the package; access()+H5F_ACC_EXCL before create. "
     "R4: every H5Fcreate is staged under tmp. R6: no store to the identity fields sub_directory/basename can precede a publish call in its function. R5: regular-language emptiness of grammar & tmp-names; clean close "
-    "finalizes. Decides the protocol shape on all paths, NOT that HDF5 flushed every byte (see C10) nor page-cache loss.")
+    "finalizes. R7: the failed-create branch sets has_failure, so a tmp file this session does not own is never renamed. Decides the protocol shape on all paths, NOT that HDF5 flushed every byte (see C10) nor page-cache loss.")
 TECHNIQUE = ('clang JSON AST; string provenance (with helper inlining); HDF5 handle typestate over the CFG; who-may-call table of file-system primitives; regular-language emptiness')
 ASSUMPTIONS = ["POSIX rename within a directory is atomic", "a file is complete once H5Fclose succeeded",
                "H5F_ACC_EXCL fails on an existing file", "clang 14 AST and CPython ast are faithful"]
